@@ -14,6 +14,10 @@ def tables(tier):
         "promo_rungs_nockpt": b(Type="promotion", SD="rungs", Ckpt=False, Vals={0, 1}),
         "promo_ral_max": b(Type="promotion", SD="rungs_and_last", MRA=True, IsMin=False, Vals={0, 1, 2}),
         "promo_all_nockpt": b(Type="promotion", SD="all", Ckpt=False, Faults=True, Vals={0, 1}, NT=3),
+        # scripts that end on their own before / between rung levels (grace period 2)
+        "stop_rungs_g2_completes": b(LevelsC={2, 3}, MaxT=5, SD="rungs", Completes=True, Vals={0, 1}),
+        "promo_rungs_g2_completes": b(Type="promotion", LevelsC={2, 3}, MaxT=5, SD="rungs", MRA=False, Completes=True, Vals={0, 1}),
+        "stop_all_completes": b(SD="all", Completes=True, Faults=True, Vals={0, 1}),
     }
     if tier == "thorough":
         t["promo_all_2br"] = b(Type="promotion", SD="all", NBr=2, PerBr=True, MRA=True, Faults=True, Vals={0, 1})
